@@ -133,17 +133,21 @@ def check_scaler(ctx):
                            "error": str(e)[:200]})
             continue
         # --- model: statistics -----------------------------------------------------------------------
-        line = f"train.welford {len(hist_q)} " + " ".join(f"{len(b)} " + " ".join(fs(v) for v in b) for b in hist_q)
+        leads = [t.shape[0] if t.dim() > 0 else 1 for t in tens]  # len(tensor) as the code would see it un-flattened
+        line = f"train.welford {len(hist_q)} " + " ".join(f"{ld} {len(b)} " + " ".join(fs(v) for v in b) for ld, b in zip(leads, hist_q))
         rep = parse_fields(ctx.driver.ask(line))
         m_count = [int(x) for x in rep["count"].split(",")]
         m_mean, m_M2, m_var = plist(rep["mean"]), plist(rep["M2"]), plist(rep["var"])
         s_mean, s_ssq, s_var = plist(rep["smean"]), plist(rep["ssq"]), plist(rep["svar"])
         ctx.case(("scaler", h, kind, mode, len(hist)), nontrivial=sum(len(b) for b in hist) > 1)
         wit = {"history": hist, "shapes": [list(t.shape) for t in tens], "mode": mode, "dtype": str(dtype)}
-        # the model equals the spec exactly (this is `welford_exact`, re-evaluated on this history)
-        if m_mean != s_mean or m_M2 != s_ssq or m_var != s_var:
-            ctx.disagreement("welford model ≠ spec (theorem welford_exact contradicted?)", wit)
-            continue
+        # REFERENCE = the Spec on everything observed so far (count = number of entries); the as-coded model (tokens from
+        # the AST) is compared with the reference after the real code has been judged against the reference
+        r_count, acc = [], 0
+        for b in hist_q:
+            acc += len(b)
+            r_count.append(acc)
+        model_is_ref = (m_count == r_count and m_mean == s_mean and m_M2 == s_ssq and m_var == s_var)
         if mode in ("off", "int"):
             # statistics untouched, output = identity or scores / scale
             if int(sc.count) != 0:
@@ -160,18 +164,18 @@ def check_scaler(ctx):
         exact = kind == "exact"
         ok = True
         for t_idx, (c, mu, m2) in enumerate(stats):
-            N = m_count[t_idx]
+            N = r_count[t_idx]
             if c != N:
                 ctx.violation("scaler-statistics", "RewardScaler.count is not the number of values observed so far",
                               {**wit, "at": t_idx, "code": c, "reference": N})
                 ok = False
                 break
             if exact:
-                good = fr(mu) == m_mean[t_idx] and fr(m2) == m_M2[t_idx]
+                good = fr(mu) == s_mean[t_idx] and fr(m2) == s_ssq[t_idx]
             else:
                 tol = 1e-5 if dtype == torch.float32 else 1e-11
-                good = abs(mu - float(m_mean[t_idx])) <= tol * scale_mag * 4 and \
-                    abs(m2 - float(m_M2[t_idx])) <= tol * max(scale_mag * scale_mag * N, float(m_M2[t_idx])) * 8
+                good = abs(mu - float(s_mean[t_idx])) <= tol * scale_mag * 4 and \
+                    abs(m2 - float(s_ssq[t_idx])) <= tol * max(scale_mag * scale_mag * N, float(s_ssq[t_idx])) * 8
             if not good:
                 # model ≠ code; the spec (= model) says what the statistics of everything seen are
                 ctx.violation("scaler-statistics",
@@ -182,33 +186,40 @@ def check_scaler(ctx):
                 break
         if not ok:
             continue
+        if not model_is_ref:
+            ctx.disagreement("as-coded Welford model ≠ reference although the real statistics match the reference", wit)
+            continue
         ctx.count("scaler.stats-exact" if exact else "scaler.stats-tol")
         # --- model: outputs (square root supplied as an oracle, checked against the variance) ----------
         eps = F32_EPS if dtype == torch.float32 else Fraction(1, 1 << 52)  # torch.finfo(scores.dtype).eps
         u = 6e-8 if dtype == torch.float32 else 1.2e-16
-        sq = []
+        sq, sqr = [], []
         for t_idx in range(len(hist)):
-            N = m_count[t_idx]
-            sq.append(Fraction(0) if N < 2 else fr(math.sqrt(float(m_var[t_idx]))))
+            N = r_count[t_idx]
+            sq.append(Fraction(0) if N < 2 else fr(math.sqrt(max(0.0, float(m_var[t_idx])))))
+            sqr.append(Fraction(0) if N < 2 else fr(math.sqrt(float(s_var[t_idx]))))
         line = f"train.scale {mode} {fs(eps)} {len(hist_q)} " + " ".join(
-            f"{fs(s)} {len(b)} " + " ".join(fs(v) for v in b) for s, b in zip(sq, hist_q))
+            f"{fs(s)} {fs(sr)} {ld} {len(b)} " + " ".join(fs(v) for v in b) for s, sr, ld, b in zip(sq, sqr, leads, hist_q))
         rep2 = parse_fields(ctx.driver.ask(line))
-        m_outs = [plist(x) for x in rep2["out"].split(";")]
+        c_outs = [plist(x) for x in rep2["out"].split(";")]   # as-coded model
+        m_outs = [plist(x) for x in rep2["ref"].split(";")]   # reference: the stated transformation
+        if c_outs != m_outs:
+            ctx.disagreement("as-coded __call__ model ≠ reference transformation", wit)
         for t_idx, (o, mo) in enumerate(zip(outs, m_outs)):
-            N = m_count[t_idx]
+            N = r_count[t_idx]
             if N < 2:
                 # N = 1: the code divides M2 = 0 by count - 1 = 0; excluded from the theorems by hypothesis
                 allnan = bool(torch.isnan(o).all())
                 ctx.count("scaler.n1-output-nan" if allnan else "scaler.n1-output-finite")
                 continue
-            var = float(m_var[t_idx])
+            var = float(s_var[t_idx])
             std = math.sqrt(var)
             fac = std + float(eps)
             # rounding of the real code (not modelled): the error of (x - mean) is amplified by 1/fac and the
             # relative error of M2 is about u·N·|x|²/M2; skip when the data are numerically constant at this
             # precision (ill-conditioned), otherwise widen the tolerance accordingly
             err_in = 8 * u * scale_mag
-            rel_fac = 0.0 if exact else 0.5 * 8 * u * N * scale_mag * scale_mag / max(float(m_M2[t_idx]), 1e-300)
+            rel_fac = 0.0 if exact else 0.5 * 8 * u * N * scale_mag * scale_mag / max(float(s_ssq[t_idx]), 1e-300)
             if not exact and (err_in / fac > 1e-3 or rel_fac > 1e-3):
                 ctx.count("scaler.output-skipped-degenerate-variance")
                 continue
@@ -272,7 +283,7 @@ def check_ema(ctx):
             beta = 0.8
         use_mean_cls = beta == 0.0 and rng.random() < 0.5
         bl = MeanBaseline() if use_mean_cls else (ExponentialBaseline() if default_beta else ExponentialBaseline(beta=beta))
-        beta = bl.beta
+        # the model is fed the CONFIGURED decay (0 for MeanBaseline, 0.8 = the documented default when none is given)
         ctx.count(f"ema.kind.{kind}")
         if default_beta:
             ctx.count("ema.default-constructed")
@@ -302,20 +313,25 @@ def check_ema(ctx):
         mv, closed, rec = plist(rep["v"]), plist(rep["closed"]), plist(rep["rec"])
         ctx.case(("ema", h, beta, len(hist)), nontrivial=len(hist) > 1)
         wit = {"beta": beta, "history": hist}
-        if any(v == 0 for v in mv[:-1]):
+        if any(v == 0 for v in rec[:-1]):
             ctx.count("ema.history-with-moving-average-exactly-0")
         ctx.sample({"unit": "train", "what": "ExponentialBaseline history", "beta": beta, "batches": hist[:4],
                     "real_v": vs[:4], "model_v": [float(x) for x in mv[:4]]}, cap=2)
-        if mv != rec or mv != closed or any(d != 0 for d in plist(rep["d"])):
-            ctx.disagreement("EMA model ≠ recurrence / closed form (theorems contradicted?)", wit)
+        if rec != closed:
+            ctx.disagreement("EMA recurrence ≠ closed form (theorem ema_closed_form contradicted?)", wit)
             continue
-        for t_idx, (vc, vm) in enumerate(zip(vs, mv)):
+        # REFERENCE = the recurrence (Ema.step); `mv` is the as-coded model (tokens from the AST)
+        bad = False
+        for t_idx, (vc, vm) in enumerate(zip(vs, rec)):
             if fr(vc) == vm:
                 ctx.count("ema.step-bit-exact")
             if not close(vc, vm, 2e-6):
                 ctx.violation("ema-recurrence", "ExponentialBaseline does not follow v = beta*v + (1-beta)*mean",
                               {**wit, "at": t_idx, "code": vc, "reference": float(vm)})
+                bad = True
                 break
+        if not bad and (mv != rec or any(d != 0 for d in plist(rep["d"]))):
+            ctx.disagreement("as-coded EMA model ≠ recurrence although the real values follow the recurrence", wit)
 
 
 class _StubPolicy:
@@ -412,20 +428,22 @@ def check_warmup(ctx):
         do_eval()
         line = f"train.warmup {n} {fs(fr(beta))} {len(events)} " + " ".join(toks)
         rep = parse_fields(ctx.driver.ask(line))
-        mev = rep["events"].split("|")
+        cev = rep["events"].split("|")      # as-coded model (tokens from the AST)
+        mev = rep["refevents"].split("|")   # REFERENCE form: what the property states; the real code is judged against it
         ctx.case(("warmup", h, n, inner_kind), nontrivial=True)
         wit = {"n_epochs": n, "beta": beta, "inner": inner_kind, "epochs": E, "zero_mean_rewards_first": zero_rewards}
         ctx.sample({"unit": "train", "what": "WarmupBaseline history", "n_epochs": n, "beta": beta, "inner": inner_kind,
                     "epochs_of_callbacks": E, "real_alpha_after_epochs_0..4": code_alpha[:5],
                     "model_events_head": mev[:4]}, cap=3)
         ia = ie = 0
+        n_viol = len(ctx.violations)
         for kind, m in zip(events, mev):
             f = m.split(":")
             if kind == "cb":
                 a_model, a_spec = Fraction(f[1]), Fraction(f[2])
                 e = ia
                 if a_model != a_spec:
-                    ctx.disagreement("warm-up alpha model ≠ min(1,(e+1)/n) (theorem warmup_alpha contradicted?)", {**wit, "epoch": e})
+                    ctx.disagreement("warm-up alpha (reference callback) ≠ min(1,(e+1)/n) (theorem warmup_alpha contradicted?)", {**wit, "epoch": e})
                 a_code = code_alpha[ia]
                 ia += 1
                 if float(a_spec) != float(a_code):
@@ -456,8 +474,11 @@ def check_warmup(ctx):
                     break
                 mema = None if f[-1] == "none" else Fraction(f[-1])
                 if (mema is None) != (wv is None) or (mema is not None and not close(float(wv), mema, 1e-6)):
-                    ctx.disagreement("warm-up EMA state", {**wit, "code": None if wv is None else float(wv), "model": str(mema)})
+                    ctx.violation("ema-recurrence", "the warm-up moving average does not follow v = beta*v + (1-beta)*mean",
+                                  {**wit, "code": None if wv is None else float(wv), "reference": str(mema)})
                     break
+        if len(ctx.violations) == n_viol and cev != mev:
+            ctx.disagreement("as-coded warm-up model ≠ reference although the real object follows the reference", wit)
 
 
 def run_c20(ctx):
@@ -472,7 +493,7 @@ C20_NOTE = ("RewardScaler / ExponentialBaseline / WarmupBaseline modelled statem
             "the square root is an uninterpreted function in the model (theorems hold for every `sq`), its value is supplied by "
             "the harness; N = 1 (division by count-1 = 0 → NaN in the real code) is excluded by hypothesis and only probed")
 
-C20_MODULES = ["Rl4co.Props.C20.TrainWelford", "Rl4co.Props.C20.TrainBaselines"]
+C20_MODULES = ["Rl4co.Props.C20.TrainWelford", "Rl4co.Props.C20.TrainBaselines", "Rl4co.Props.C20.TrainCoded"]
 C20_THEOREMS = [
     Theorem("Rl4co.Train.Welford.welford_exact", "proved",
             "after ANY list of batches (any sizes): count = N, mean = Σx/N, M2 = Σ(x − mean)² of everything observed "
@@ -494,6 +515,22 @@ C20_THEOREMS = [
     Theorem("Rl4co.Train.warmupAlpha_eq_min", "proved", "warmupAlpha n e = min 1 ((e+1)/n) in a linearly ordered field"),
     Theorem("Rl4co.Train.warmup_convex", "proved",
             "WarmupBaseline.eval value = alpha·v_b + (1−alpha)·v_wb entrywise (or the wrapped baseline's result when alpha = 1)"),
+    # translator tie: the driver runs the as-coded definitions (tokens from the Python AST); these obligations hold for the
+    # extracted tokens only and stop compiling when one of them changes
+    Theorem("Rl4co.Train.Welford.updateC_eq", "proved", "obligation: RewardScaler.update as coded (flatten before count, the four Welford statements) = reference update, any tensor shape"),
+    Theorem("Rl4co.Train.Welford.callC_eq", "proved", "obligation: __call__ as coded (count−1, mean subtracted in 'norm') = reference"),
+    Theorem("Rl4co.Train.Ema.stepC_eq", "proved", "obligation: recurrence beta·v+(1−beta)·mean and first-evaluation test `is None` as coded = reference"),
+    Theorem("Rl4co.Train.Ema.evalC_eq", "proved", "obligation: ExponentialBaseline.eval on dual numbers as coded = reference"),
+    Theorem("Rl4co.Train.Warmup.epochCallbackC_eq", "proved", "obligation: `epoch < n_epochs` and `(epoch+1)/n_epochs` as coded = reference"),
+    Theorem("Rl4co.Train.Warmup.evalC_eq", "proved", "obligation: warm-up mixture of value and loss as coded = reference"),
+    Theorem("Rl4co.Train.Warmup.configC_eq", "proved", "obligation: WarmupBaseline stores n_epochs and hands warmup_exp_beta to its moving average"),
+    Theorem("Rl4co.Train.rollout_kwargs_passed", "proved", "obligation: get_reinforce_baseline('rollout') passes n_epochs / exp_beta on"),
+    Theorem("Rl4co.Train.Welford.welford_exact_coded", "proved", "welford_exact for the as-coded update and score tensors of ANY shape"),
+    Theorem("Rl4co.Train.Welford.scale_norm_coded", "proved", "scale_norm for the as-coded call"),
+    Theorem("Rl4co.Train.Welford.scale_scale_coded", "proved", "scale_scale for the as-coded call"),
+    Theorem("Rl4co.Train.ema_coded", "proved", "first value = mean; afterwards beta·v+(1−beta)·mean, also when v = 0 (as coded)"),
+    Theorem("Rl4co.Train.warmup_alpha_coded", "proved", "alpha after epoch e = min 1 ((e+1)/n) for the as-coded callback, every e"),
+    Theorem("Rl4co.Train.warmup_convex_coded", "proved", "warm-up mixture for the as-coded eval"),
 ]
 
 register(Unit("C20", "train", run_c20, drivers=["drv_train"], lean_modules=C20_MODULES, theorems=C20_THEOREMS,
@@ -596,7 +633,9 @@ class _BlTok:
             inner_evaluated = a != 0  # what the real object did
             a = self.expected_alpha.get(id(bl), a)
             itok = self.tokens(bl.baseline, snap["inner"], dirn, td, env, False, None) if inner_evaluated else "no"
-            return (f"warmup {fs(a)} {bl.n_epochs} {fs(fr(bl.warmup_baseline.beta))} {_optrat(snap['wv'])} " + itok)
+            # the horizon and decay the harness CONFIGURED (not what the object happens to hold)
+            n_cfg, b_cfg = getattr(bl, "_verif_cfg", (bl.n_epochs, bl.warmup_baseline.beta))
+            return (f"warmup {fs(a)} {n_cfg} {fs(fr(b_cfg))} {_optrat(snap['wv'])} " + itok)
         if isinstance(bl, NoBaseline):
             return "no"
         if isinstance(bl, SharedBaseline):
@@ -664,13 +703,16 @@ class _ScalerTrack:
         rep0 = parse_fields(ctx.driver.ask(mk_line("off")))
         if "error" in rep0:
             return "off"
-        self.hist.append(plist(rep0["adv"]))
-        line = f"train.welford {len(self.hist)} " + " ".join(f"{len(b)} " + " ".join(fs(v) for v in b) for b in self.hist)
+        shp = [int(x) for x in rep0["advshape"].strip("[]").split(",") if x != ""]
+        self.hist.append((shp[0] if shp else 1, plist(rep0["adv"])))
+        line = f"train.welford {len(self.hist)} " + " ".join(f"{ld} {len(b)} " + " ".join(fs(v) for v in b) for ld, b in self.hist)
         rep = parse_fields(ctx.driver.ask(line))
         N = int(rep["count"].split(",")[-1])
         if N < 2:
             return None
         mean, var = plist(rep["mean"])[-1], plist(rep["var"])[-1]
+        if var < 0:
+            return None
         eps = F32_EPS if not self.dbl else Fraction(1, 1 << 52)
         std = fr(float(torch.tensor(float(var), dtype=torch.float32).sqrt()))  # the code takes the root in float32
         fac = std + eps
@@ -723,7 +765,12 @@ def _reinforce_step(ctx, tag, model, env, batch, dirn, pcap, bltok, dbl, wit, fl
     """One real `shared_step(batch, 0, 'train')`, its loss and θ·grad, against the model and the reference."""
     pcap.clear()
     snap = bltok.snapshot()
-    res = model.shared_step(batch, 0, "train")
+    try:
+        res = model.shared_step(batch, 0, "train")
+    except Exception as ex:
+        ctx.violation("loss-raises", f"{tag}: shared_step(…, 'train') raises {type(ex).__name__} on a generated batch",
+                      {**wit, "error": str(ex)[:200]})
+        return torch.tensor(float("nan")), {}, {}
     loss = res["loss"]
     out = pcap.calls[0][2]  # the policy output dict, updated in place by calculate_loss
     R, ll = out["reward"], out["log_likelihood"]
@@ -750,14 +797,15 @@ def _expected_alpha(n: int, e: int) -> float:
 
 def _after_callback(ctx, tag, bltok, wb, epoch, wit):
     """compare the real warm-up weight with the reference schedule and make the model follow the reference"""
-    exp = _expected_alpha(wb.n_epochs, epoch)
+    n_cfg = getattr(wb, "_verif_cfg", (wb.n_epochs, None))[0]
+    exp = _expected_alpha(n_cfg, epoch)
     bltok.expected_alpha[id(wb)] = fr(exp)
     ctx.count(f"c16.warmup-alpha-after-cb.{'0<a<1' if 0 < exp < 1 else exp}")
-    if epoch + 1 > wb.n_epochs:
+    if epoch + 1 > n_cfg:
         ctx.count("c16.warmup.callback-beyond-n_epochs")
     if float(wb.alpha) != exp:
         ctx.violation("warmup-alpha", f"{tag}: WarmupBaseline.alpha after the callback of epoch {epoch} is {wb.alpha}, "
-                      f"the schedule min(1,(e+1)/n) gives {exp}", {**wit, "epoch": epoch, "n_epochs": wb.n_epochs,
+                      f"the schedule min(1,(e+1)/n) gives {exp}", {**wit, "epoch": epoch, "n_epochs": n_cfg,
                                                                    "code": float(wb.alpha), "reference": exp})
 
 
@@ -790,13 +838,18 @@ def check_reinforce(ctx):
                 kw = {"critic": _mk_critic(policy, dbl)}
             model = REINFORCE(env, policy, baseline=base, baseline_kwargs=kw, reward_scale=reward_scale)
         elif base == "warmup-rollout":
-            model = REINFORCE(env, policy, baseline="rollout", baseline_kwargs={"n_epochs": n_ep, "exp_beta": 0.8})
+            xb = ctx.rng.choice([0.8, 0.5, 0.3])
+            model = REINFORCE(env, policy, baseline="rollout", baseline_kwargs={"n_epochs": n_ep, "exp_beta": xb})
+            model.baseline._verif_cfg = (n_ep, xb)
         elif base == "warmup-critic":
             model = REINFORCE(env, policy, baseline=WarmupBaseline(CriticBaseline(_mk_critic(policy, dbl)), n_epochs=n_ep, warmup_exp_beta=0.5))
+            model.baseline._verif_cfg = (n_ep, 0.5)
         elif base == "warmup-exponential":
             model = REINFORCE(env, policy, baseline=WarmupBaseline(ExponentialBaseline(beta=0.5), n_epochs=n_ep))
+            model.baseline._verif_cfg = (n_ep, 0.8)  # warmup_exp_beta left at its default
         elif base == "default":  # every option left at its default: warm-up(1 epoch, beta 0.8) around the greedy rollout
             model = REINFORCE(env, policy)
+            model.baseline._verif_cfg = (1, 0.8)
         else:  # extra
             model = REINFORCE(env, policy, baseline="exponential")
         model.log_dict = _noop
@@ -810,7 +863,7 @@ def check_reinforce(ctx):
         bltok = _BlTok(ctx, model.baseline, None)
         steps = ctx.rng.choice([3, 4])
         if isinstance(model.baseline, WarmupBaseline):
-            steps = model.baseline.n_epochs + 3  # training goes on after the warm-up horizon
+            steps = model.baseline._verif_cfg[0] + 3  # training goes on after the warm-up horizon
         scaler = _ScalerTrack(reward_scale, dbl)
         ctx.count(f"c16.reinforce.{kind}")
         ctx.count(f"c16.dtype.{'f64' if dbl else 'f32'}")
@@ -846,11 +899,15 @@ def check_reinforce(ctx):
             if not bool(torch.isnan(loss)):
                 dirn.sgd_step(loss, lr=0.05)
             # epoch callbacks between steps for the warm-up baselines (alpha moves 0 → 1)
-            if isinstance(model.baseline, WarmupBaseline):
-                model.baseline.epoch_callback(policy, env=env, batch_size=4, device="cpu", epoch=t, dataset_size=8)
-                _after_callback(ctx, tag, bltok, model.baseline, t, wit)
-            elif isinstance(model.baseline, RolloutBaseline):
-                model.baseline.epoch_callback(policy, env, batch_size=4, device="cpu", epoch=t, dataset_size=8)
+            try:
+                if isinstance(model.baseline, WarmupBaseline):
+                    model.baseline.epoch_callback(policy, env=env, batch_size=4, device="cpu", epoch=t, dataset_size=8)
+                    _after_callback(ctx, tag, bltok, model.baseline, t, wit)
+                elif isinstance(model.baseline, RolloutBaseline):
+                    model.baseline.epoch_callback(policy, env, batch_size=4, device="cpu", epoch=t, dataset_size=8)
+            except Exception as ex:
+                ctx.violation("rollout-baseline-update-rule", f"{tag}: epoch_callback raises {type(ex).__name__} ({str(ex)[:60]})", wit)
+                break
         pcap.remove()
 
 
@@ -907,12 +964,16 @@ def check_calc_loss(ctx):
             bl = SharedBaseline()
         elif kind == "warmup-default":
             bl = WarmupBaseline(ExponentialBaseline(beta=0.25))
+            bl._verif_cfg = (1, 0.8)
         elif kind == "warmup-ema-inner":
             bl = WarmupBaseline(ExponentialBaseline(beta=0.25), n_epochs=n_ep, warmup_exp_beta=beta)
+            bl._verif_cfg = (n_ep, beta)
         elif kind == "warmup-no-inner":
             bl = WarmupBaseline(NoBaseline(), n_epochs=n_ep, warmup_exp_beta=beta)
+            bl._verif_cfg = (n_ep, beta)
         elif kind == "warmup-shared-inner":
             bl = WarmupBaseline(SharedBaseline(), n_epochs=n_ep, warmup_exp_beta=beta)
+            bl._verif_cfg = (n_ep, beta)
         else:
             bl = ExponentialBaseline()
         model = REINFORCE(env, policy, baseline=bl, reward_scale=reward_scale)
@@ -925,7 +986,7 @@ def check_calc_loss(ctx):
         if two_d and B == S and rng.random() < 0.5:
             S += 1
         zero_d = (not two_d) and kind in ("no", "exponential", "exponential-default") and rng.random() < 0.15
-        epochs = (model.baseline.n_epochs + 3) if isinstance(model.baseline, WarmupBaseline) else rng.choice([3, 4, 5])
+        epochs = (model.baseline._verif_cfg[0] + 3) if isinstance(model.baseline, WarmupBaseline) else rng.choice([3, 4, 5])
         ctx.count(f"c16.calc.{kind}")
         ctx.count(f"c16.calc.pattern.{pattern}")
         ctx.count(f"c16.calc.scale.{reward_scale}")
@@ -941,7 +1002,7 @@ def check_calc_loss(ctx):
                 vals = half + [-x for x in half] + [0.0] * (n - 2 * (n // 2))
             elif pattern == "lands-on-zero" and e < 2:
                 # batch means m0 then -beta*m0/(1-beta): a moving average with weight beta is exactly 0 after the second step
-                bb = getattr(model.baseline, "beta", None) or getattr(getattr(model.baseline, "warmup_baseline", None), "beta", 0.5)
+                bb = model.baseline._verif_cfg[1] if isinstance(model.baseline, WarmupBaseline) else getattr(model.baseline, "beta", 0.5)
                 vals = [m0] * n if e == 0 else [-bb * m0 / (1 - bb)] * n
             elif pattern == "constant":
                 vals = [m0] * n
@@ -1034,6 +1095,8 @@ def check_pomo(ctx):
             loss, out, rep = _reinforce_step(ctx, "POMO", model, env, batch, dirn, pcap, bltok, dbl, wit, flat_pomo=S_eff,
                                              scaler=scaler)
             ctx.case(("pomo", c, t), nontrivial=True)
+            if not out:
+                break
             # layout premise of the reference (k = s·B + b): start node and instance of every flat rollout
             acts, R = out["actions"], out["reward"]
             if acts.dim() == 3:  # already regrouped by shared_step in non-train phases; not here
@@ -1076,6 +1139,8 @@ def check_a2c(ctx):
             wit = {"case": c, "step": t, "B": B, "dtype": "f64" if dbl else "f32"}
             loss, out, rep = _reinforce_step(ctx, "A2C", model, env, batch, dirn, pcap, bltok, dbl, wit)
             ctx.case(("a2c", c, t), nontrivial=True)
+            if not out:
+                break
             dirn.sgd_step(loss, lr=0.05)
         pcap.remove()
 
@@ -1295,6 +1360,161 @@ def check_symnco(ctx, only=None):
         pcap.remove()
 
 
+class _LinPolicy(torch.nn.Module):
+    """A deterministic row-wise stand-in policy for the greedy-rollout baseline: the "greedy reward" of an instance is a
+    fixed function of its coordinates (scaled by `w`, shifted by `c`), so that candidates can be made better / worse /
+    equal by a chosen margin.  It is a real `nn.Module` (deep-copied, `.eval()`, `.to(device)` as the code does)."""
+
+    def __init__(self, w, c=0.0, noise=0.0):
+        super().__init__()
+        self.w = torch.nn.Parameter(torch.tensor(float(w)))
+        self.c, self.noise = float(c), float(noise)
+
+    def forward(self, td, env=None, decode_type=None, **kw):
+        locs = td["locs"]
+        r = -(locs[..., 0] * self.w).sum(-1) + self.c
+        if self.noise:
+            r = r + self.noise * torch.sin(37.0 * locs[..., 1].sum(-1))
+        return {"reward": r}
+
+
+def _per_instance(policy, env, dataset):
+    """reward of every instance of a data set, one instance at a time (no batching involved)"""
+    out = []
+    with torch.inference_mode():
+        for i in range(len(dataset)):
+            td = env.reset(dataset.collate_fn([dataset[i]]))
+            out.append(float(policy(td, env, decode_type="greedy")["reward"][0]))
+    return out
+
+
+def check_rollout_baseline(ctx):
+    """`RolloutBaseline.setup / epoch_callback / wrap_dataset` over training histories: the stored baseline values are the
+    frozen policy's rewards instance by instance, the policy is replaced exactly when the candidate is better on average
+    and significant (one-sided paired t-test recomputed by the harness), and `wrap_dataset` attaches to item i the frozen
+    policy's reward on instance i for every evaluation batch size."""
+    import math
+
+    from scipy import stats
+    from rl4co.models.rl.reinforce.baselines import RolloutBaseline
+
+    n_cases = ctx.budget(10, 120)
+    for c in range(n_cases):
+        rng = ctx.rng
+        _seed_torch(ctx)
+        env = _mk_env(rng.choice([4, 5]), False)
+        N = rng.choice([3, 5, 8, 13])
+        bs = rng.choice([1, 2, 3, 4, N, N + 3])
+        alpha = rng.choice([0.05, 0.05, 0.5, 0.9]) if c % 3 else None
+        bl = RolloutBaseline() if alpha is None else RolloutBaseline(bl_alpha=alpha)
+        alpha = 0.05 if alpha is None else alpha
+        real = c % 4 == 3
+        pol = tiny_policy("am", "tsp", False) if real else _LinPolicy(rng.choice([1.0, 2.0]), noise=0.3)
+        bl.setup(pol, env, batch_size=bs, device="cpu", dataset_size=N)
+        ctx.count(f"c16.rollout.N.{N}")
+        ctx.count("c16.rollout.policy." + ("real" if real else "stub"))
+        wit0 = {"case": c, "dataset_size": N, "eval_batch_size": bs, "bl_alpha": alpha}
+
+        def consistent(tag):
+            ref = _per_instance(bl.policy, env, bl.dataset)
+            vals = [float(x) for x in bl.bl_vals.tolist()]
+            if len(vals) != len(ref) or not all(close(a, b, 1e-5) for a, b in zip(vals, ref)) or \
+                    not close(float(bl.mean), sum(ref) / len(ref), 1e-5):
+                ctx.violation("rollout-baseline-values", f"{tag}: bl_vals / mean are not the frozen policy's rewards on its "
+                              "evaluation set, instance by instance", {**wit0, "code": vals[:6], "reference": ref[:6]})
+                return False
+            return True
+
+        if not consistent("setup"):
+            continue
+        for e in range(rng.choice([2, 3, 4])):
+            kind = rng.choice(["better", "better-small", "worse", "same", "better-noisy", "real"] if real else
+                              ["better", "better-small", "worse", "same", "better-noisy"])
+            if kind == "real":
+                cand = tiny_policy("am", "tsp", False)
+            elif kind == "same":
+                import copy
+                cand = copy.deepcopy(bl.policy)
+            else:
+                base_w = float(bl.policy.w) if isinstance(bl.policy, _LinPolicy) else 1.0
+                cand = _LinPolicy({"better": 0.5, "better-small": 0.98, "worse": 1.5, "better-noisy": 0.9}[kind] * base_w,
+                                  noise=rng.choice([0.0, 0.3, 1.0]) if kind == "better-noisy" else 0.3)
+            old_ds, old_vals, old_mean = bl.dataset, [float(x) for x in bl.bl_vals.tolist()], float(bl.mean)
+            cand_vals = _per_instance(cand, env, old_ds)
+            # one-sided paired t-test on costs, recomputed: d = (-cand) - (-bl)
+            d = [b - a for a, b in zip(cand_vals, old_vals)]
+            n = len(d)
+            md = sum(d) / n
+            sd = math.sqrt(sum((x - md) ** 2 for x in d) / (n - 1)) if n > 1 else float("nan")
+            if sd == 0 or sd != sd:
+                pv = 0.0 if md < 0 else (1.0 if md > 0 else float("nan"))
+            else:
+                pv = float(stats.t.sf(abs(md / (sd / math.sqrt(n))), n - 1))
+            better = (sum(cand_vals) / n - old_mean) > 0
+            margin = min(abs(sum(cand_vals) / n - old_mean), abs(pv - alpha) if pv == pv else 1.0)
+            try:
+                bl.epoch_callback(cand, env, batch_size=bs, device="cpu", epoch=e, dataset_size=N)
+            except Exception as ex:
+                ctx.case(("rollout-raises", c, e), nontrivial=True)
+                ctx.violation("rollout-baseline-update-rule", f"RolloutBaseline.epoch_callback raises {type(ex).__name__} "
+                              f"({str(ex)[:60]}) for a {kind} candidate",
+                              {**wit0, "epoch": e, "candidate": kind, "candidate_mean": sum(cand_vals) / n,
+                               "baseline_mean": old_mean, "p_one_sided": pv})
+                break
+            updated = bl.dataset is not old_ds
+            ctx.case(("rollout", c, e, kind), nontrivial=True)
+            ctx.count(f"c16.rollout.candidate.{kind}")
+            ctx.count("c16.rollout.replaced" if updated else "c16.rollout.kept")
+            wit = {**wit0, "epoch": e, "candidate": kind, "candidate_mean": sum(cand_vals) / n, "baseline_mean": old_mean,
+                   "p_one_sided": pv}
+            if margin < 1e-6 or pv != pv:
+                ctx.count("c16.rollout.decision-tie-skipped")
+            else:
+                fresh_vals = _per_instance(cand, env, bl.dataset) if updated else [0.0]
+                line = (f"train.rolloutcb {fs(fr(alpha))} {fs(fr(pv))} {n} " + " ".join(fs(fr(x)) for x in old_vals) + f" {n} "
+                        + " ".join(fs(fr(x)) for x in cand_vals) + f" {len(fresh_vals)} " + " ".join(fs(fr(x)) for x in fresh_vals))
+                rep = parse_fields(ctx.driver.ask(line))
+                accept = rep["refaccept"] == "1"   # REFERENCE decision; rep["accept"] is the as-coded model
+                if accept != (better and pv < alpha):
+                    ctx.disagreement("rollout reference decision ≠ (better ∧ p < alpha)", wit)
+                if updated != accept:
+                    ctx.violation("rollout-baseline-update-rule",
+                                  "RolloutBaseline.epoch_callback replaced / kept the frozen policy against the rule "
+                                  "'candidate better on average and one-sided p-value < bl_alpha'", {**wit, "replaced": updated})
+                    break
+                if updated and not close(float(bl.mean), float(Fraction(rep["mean"])), 1e-5):
+                    ctx.violation("rollout-baseline-values", "mean after replacement is not the candidate's mean on the fresh set", wit)
+                    break
+                if not updated and (bl.bl_vals.tolist() != old_vals or float(bl.mean) != old_mean):
+                    ctx.violation("rollout-baseline-values", "state changed although the candidate was rejected", wit)
+                    break
+                if (rep["accept"] == "1") != accept:
+                    ctx.disagreement("as-coded rollout decision ≠ reference although the real object follows the reference", wit)
+            # frozen policy = candidate after a replacement, unchanged otherwise (behaviourally, on a probe set)
+            probe = env.dataset(4)
+            want = _per_instance(cand if updated else bl.policy, env, probe)
+            got = _per_instance(bl.policy, env, probe)
+            if not all(close(a, b, 1e-5) for a, b in zip(want, got)):
+                ctx.violation("rollout-baseline-update-rule", "the frozen policy after the callback is not the candidate", wit)
+                break
+            if not consistent(f"epoch {e}"):
+                break
+        # wrap_dataset: item i carries the frozen policy's reward on instance i, any evaluation batch size
+        M = rng.choice([1, 4, 7])
+        wbs = rng.choice([1, 2, 3, 5, 8])
+        ds = env.dataset(M)
+        wrapped = bl.wrap_dataset(ds, env, batch_size=wbs, device="cpu")
+        ref = _per_instance(bl.policy, env, ds)
+        extra = [float(wrapped[i]["extra"]) for i in range(M)]
+        same_inst = all(torch.equal(wrapped[i]["locs"], ds[i]["locs"]) for i in range(M))
+        ctx.count("c16.rollout.wrap_dataset")
+        if not same_inst or not all(close(a, b, 1e-5) for a, b in zip(extra, ref)):
+            ctx.violation("rollout-baseline-values", "wrap_dataset: `extra` of item i is not the frozen policy's reward on instance i",
+                          {**wit0, "wrap_batch_size": wbs, "code": extra[:6], "reference": ref[:6]})
+        ctx.sample({"unit": "train", "what": "RolloutBaseline history", "dataset_size": N, "bl_alpha": alpha,
+                    "bl_vals_head": [float(x) for x in bl.bl_vals.tolist()][:3], "wrap_extra_head": extra[:3], "reference_head": ref[:3]}, cap=4)
+
+
 def run_c16(ctx):
     check_calc_loss(ctx)
     check_reinforce(ctx)
@@ -1302,6 +1522,7 @@ def run_c16(ctx):
     check_a2c(ctx)
     check_ppo(ctx)
     check_symnco(ctx)
+    check_rollout_baseline(ctx)
 
 
 C16_NOTE = ("losses modelled over dual numbers (value, directional derivative) and shaped tensors with PyTorch broadcasting "
@@ -1309,7 +1530,9 @@ C16_NOTE = ("losses modelled over dual numbers (value, directional derivative) a
             "neural networks are oracles: the recorded reward / log-likelihood / critic value and their directional "
             "derivatives (autograd, Σ grad·v along a random direction) are the model's inputs; exp is an uninterpreted function")
 
-C16_MODULES = ["Rl4co.Props.C16.TrainReinforce", "Rl4co.Props.C16.TrainPpo", "Rl4co.Props.C16.TrainSymnco"]
+C16_MODULES = ["Rl4co.Props.C16.TrainReinforce", "Rl4co.Props.C16.TrainPpo", "Rl4co.Props.C16.TrainSymnco",
+               "Rl4co.Props.C16.TrainCoded", "Rl4co.Props.C20.TrainCoded", "Rl4co.Props.C16.TrainSymncoFlat",
+               "Rl4co.Props.C16.TrainPpoKink", "Rl4co.Props.C16.TrainRollout"]
 C16_THEOREMS = [
     Theorem("Rl4co.Train.reinforce_vec", "proved",
             "REINFORCE, per-instance baseline [n] (critic, rollout `extra`, warm-up mixtures), any advantage scaling: loss = "
@@ -1342,6 +1565,37 @@ C16_THEOREMS = [
             "FINDING: ¬(groups are semantic for all S, A ≥ 2) — S = 3, A = 2 mixes starts and augmentations"),
     Theorem("Rl4co.Train.symnco_loss_counterexample", "proved",
             "FINDING: ¬(SymNCO loss = reference surrogate under either reading of the axes) — concrete S=3, A=2, B=1 instance"),
+    # translator tie (see the C20 list): obligations on the tokens extracted from reinforce.py / baselines.py / ppo.py / a2c.py / pomo / symnco
+    Theorem("Rl4co.Train.calcLossC_eq", "proved", "obligation: `reward − bl_val`, `−(adv·ll).mean()`, `+ bl_loss` as coded = reference calculate_loss"),
+    Theorem("Rl4co.Train.sharedEvalC_eq", "proved", "obligation: shared baseline `mean(dim, keepdims=True)` as coded = reference"),
+    Theorem("Rl4co.Train.Critic.evalC_eq", "proved", "obligation: critic value squeezed and detached, target detached, as coded = reference"),
+    Theorem("Rl4co.Train.a2c_uses_critic_baseline", "proved", "obligation: A2C passes baseline=CriticBaseline(critic) to REINFORCE"),
+    Theorem("Rl4co.Train.ppoLossC_eq", "proved", "obligation: torch.min of the two PRODUCTS, two-sided clamp, Huber, −entropy, detached value as coded = reference PPO block"),
+    Theorem("Rl4co.Train.symncoRegroupC_eq", "proved", "obligation: SymNCO's unbatchify tuple is (n_start, n_aug) (the modelled — defective — order)"),
+    Theorem("Rl4co.Train.symncoLossC_eq", "proved", "obligation: SymNCO loss as coded = modelled loss"),
+    Theorem("Rl4co.Train.Warmup.epochCallbackC_eq", "proved", "obligation (state carried across epochs): warm-up schedule as coded = reference"),
+    Theorem("Rl4co.Train.Warmup.evalC_eq", "proved", "obligation: warm-up mixture as coded = reference"),
+    Theorem("Rl4co.Train.Ema.evalC_eq", "proved", "obligation: exponential baseline as coded = reference"),
+    Theorem("Rl4co.Train.Welford.callC_eq", "proved", "obligation: the advantage scaler inside calculate_loss as coded = reference"),
+    Theorem("Rl4co.Train.pomo_regroup3_index", "proved", "POMO's unbatchify(x,(n_aug,n_start)) as coded: entry [b,a,s] = x[(s·A+a)·B+b] — every axis semantic"),
+    Theorem("Rl4co.Train.reinforce_vec_coded", "proved", "reinforce_vec for the as-coded calculate_loss"),
+    Theorem("Rl4co.Train.reinforce_scalar_coded", "proved", "reinforce_scalar for the as-coded calculate_loss"),
+    Theorem("Rl4co.Train.reinforce_shared_coded", "proved", "reinforce_shared for the as-coded calculate_loss and shared baseline"),
+    Theorem("Rl4co.Train.a2c_loss_coded", "proved", "a2c_loss for the as-coded critic baseline and calculate_loss"),
+    Theorem("Rl4co.Train.ppo_loss_coded", "proved", "ppo_loss (value and gradient) for the as-coded PPO block"),
+    Theorem("Rl4co.Train.symnco_dim1_flat", "proved", "SymNCO dim-1 term on the flat rollout, all S, A ≥ 1: baseline = mean over the block of S consecutive (start,aug) pairs (value and gradient)"),
+    Theorem("Rl4co.Train.symnco_dimLast_flat", "proved", "SymNCO last-dim term: baseline = mean over the pairs congruent modulo S"),
+    Theorem("Rl4co.Train.symnco_loss_flat", "proved", "the whole SymNCO loss as an equation with the mixed groups named, all S, A ≥ 2 (the exact content of the finding)"),
+    Theorem("Rl4co.Train.symnco_loss_eq_reference_of_eq", "partial", "n_start = n_aug ≥ 2 ⇒ SymNCO loss AND gradient = reference surrogate (docstring reading), every B, alpha, beta"),
+    Theorem("Rl4co.Train.surrG_d", "proved", "per-sample derivative of min(r·A, clamp(r)·A) at EVERY point, sub-gradient convention of clamp at its bounds as a parameter"),
+    Theorem("Rl4co.Train.ppo_loss_all", "proved", "PPO mini-batch gradient at ALL points (kinks weigh 1/2: PyTorch's convention), only clipLo ≤ clipHi assumed"),
+    Theorem("Rl4co.Train.RolloutBl.epochCallback_policy", "proved", "RolloutBaseline.epoch_callback replaces the frozen policy iff candidate mean > baseline mean ∧ one-sided p < bl_alpha; else nothing changes"),
+    Theorem("Rl4co.Train.RolloutBl.acceptsC_eq", "proved", "obligation: `candidate_mean − mean > 0`, `p/2 < bl_alpha` as coded = reference decision"),
+    Theorem("Rl4co.Train.RolloutBl.epochCallbackC_eq", "proved", "obligation: epoch_callback as coded (the CANDIDATE is rolled out) = reference"),
+    Theorem("Rl4co.Train.RolloutBl.consistent_run", "proved", "after setup and ANY history of callbacks: bl_vals = frozen policy's rewards on its evaluation set, instance by instance; mean = their mean"),
+    Theorem("Rl4co.Train.RolloutBl.policy_mem_run", "proved", "the frozen policy is always the initial one or one of the candidates seen"),
+    Theorem("Rl4co.Train.RolloutBl.wrap_value", "proved", "wrap_dataset: item i carries the frozen policy's reward on instance i, any evaluation batch size (via Ops.wrap_aligned)"),
+    Theorem("Rl4co.Train.RolloutBl.reinforce_rollout", "proved", "REINFORCE on a wrapped batch: loss / gradient = −mean((R_i − g(x_i))·(d)ll_i)"),
     Theorem("Rl4co.Train.symnco_groups_partial", "partial", "n_start = n_aug ⇒ dim-1 groups share the start, last-dim groups the augmentation"),
 ]
 
